@@ -97,8 +97,10 @@ def data(F, res, pol):
                 and off is not None and is_eval_of(off, 'elem(section)!.kind.Active.offset_expr')
             # the memory learns about its active segment (the GC follows memory -> data)
             ins = [e for e in w.trace if e['kind'] == 'call' and e['callee'].endswith('HashSet::insert')]
+            # ... under the id of the record being filled: `<record>.id`, or the id the record was fetched with
+            own_id = lambda t: show(t).endswith('.id') or (len(show(t)) > 3 and show(t) in show(k['args'][0]))
             if not (len(ins) == 1 and 'data_segments' in show(ins[0]['args'][0]) and 'memories' in show(ins[0]['args'][0])
-                    and show(ins[0]['args'][1]).endswith('.id')):
+                    and own_id(ins[0]['args'][1])):
                 res.bad(key + '/backlink', 'an active data segment must be registered in its memory\'s data_segments')
                 continue
         if good:
@@ -301,28 +303,40 @@ def elements(F, res, pol):
 
 
 def ref_func_helper(F, em):
-    """the function, written next to the element emitter and called from it, that walks the function bodies (found by what
-    it does: it runs the instruction traversal), or None"""
+    """the function, written next to the element emitter and called from it, through which the function bodies are walked
+    (found by what it does: the instruction traversal is reachable from it within the file) - the outermost such function,
+    i.e. the one the emitter itself calls; or None"""
     from heval import file_of, norm_path
     from mirinline import callee_of
     home = file_of(F, em)
-    seen, todo = set(), [em]
-    while todo:
-        q = todo.pop()
-        if q in seen or q not in F.mir:
-            continue
-        seen.add(q)
-        todo.extend(x for x in F.mir if x.startswith(q + '::{closure') and x not in seen)
-        for b in F.mir[q]['blocks']:
-            t = b['term']
-            if t.get('t') != 'Call':
-                continue
-            k = (t.get('func') or {}).get('k') or {}
-            if q != em and '{closure' not in q and re.search(r'traversals::dfs_in_order$', norm_path(k.get('resolved') or k.get('fn') or '')):
-                return q
-            c = callee_of(t, F)
-            if c and c in F.mir and file_of(F, c) == home and c not in seen:
-                todo.append(c)
+
+    def local_calls(q):
+        out, walks = [], False
+        for x in [q] + [y for y in F.mir if y.startswith(q + '::{closure')]:
+            for b in (F.mir.get(x) or {'blocks': []})['blocks']:
+                t = b['term']
+                if t.get('t') != 'Call':
+                    continue
+                k = (t.get('func') or {}).get('k') or {}
+                if re.search(r'traversals::dfs_in_order$', norm_path(k.get('resolved') or k.get('fn') or '')):
+                    walks = True
+                c = callee_of(t, F)
+                if c and c in F.mir and file_of(F, c) == home and '{closure' not in c and c not in out:
+                    out.append(c)
+        return out, walks
+
+    memo = {}
+
+    def reaches(q, depth=0):
+        if q in memo:
+            return memo[q]
+        memo[q] = False
+        cs, walks = local_calls(q)
+        memo[q] = walks or (depth < 5 and any(reaches(c, depth + 1) for c in cs))
+        return memo[q]
+    for c in local_calls(em)[0]:
+        if c != em and reaches(c):
+            return c
     return None
 
 
@@ -332,6 +346,63 @@ DECLARING = (  # where a function index may occur so that `ref.func` on it valid
     ('elements', r'^\.items\.Functions\.0$'),            # element of that list
     ('elements', r'^\.items\.Expressions\.1$'),          # element of that list, .RefFunc.0
 )
+
+
+def _split_elem(x):
+    """'elem(<inner>)<rest>' -> (inner, rest)"""
+    if not x.startswith('elem('):
+        return None
+    d, i = 0, 4
+    for i in range(4, len(x)):
+        d += x[i] == '('
+        d -= x[i] == ')'
+        if d == 0:
+            break
+    return x[5:i], x[i + 1:]
+
+
+def _declaring_base(st):
+    """the (arena, path) a removal operand shown as `st` stands for, if it is a declaring occurrence written directly"""
+    sp = _split_elem(st)
+    tail = ''
+    if sp and sp[0].startswith('elem('):
+        tail = sp[1]
+        sp = _split_elem(sp[0])
+    if sp:
+        m = re.match(r'^iter\(module\.(\w+)', sp[0])
+        if m and sp[1].startswith('.1'):
+            arena, path = m.group(1), sp[1][2:]
+            for ar, rx in DECLARING:
+                if ar == arena and re.match(rx, path) and tail in ('', '.RefFunc.0'):
+                    if path.endswith('Expressions.1') == (tail == '.RefFunc.0') and \
+                            ((arena == 'elements') == st.startswith('elem(elem(')):
+                        return (ar, path)
+    return None
+
+
+def declaring(t):
+    """set of declaring occurrences the function id term `t` ranges over, or None if some value of it is not one: direct
+    projections of an export / global / element item, and elements of sequences built from those (map / filter_map over
+    one arena, `chain` of two such sequences, copied / cloned views)"""
+    while isinstance(t, tuple) and t and t[0] == 'ok':
+        t = t[1]
+    hit = _declaring_base(show(t))
+    if hit:
+        return {hit}
+    if isinstance(t, tuple) and t and t[0] == 'elem':
+        x = t[1]
+        while isinstance(x, tuple) and x and x[0] == 'ok':
+            x = x[1]
+        if x[0] == 'seq':
+            return declaring(x[2])
+        if x[0] == 'call' and x[2]:
+            last = x[1].split('::')[-1]
+            if last == 'chain' and len(x[2]) == 2:
+                l, r = declaring(('elem', x[2][0])), declaring(('elem', x[2][1]))
+                return (l | r) if l and r else None
+            if last in ('copied', 'cloned', 'iter', 'into_iter', 'by_ref', 'rev', 'loop_carried'):
+                return declaring(('elem', x[2][-1] if last == 'loop_carried' else x[2][0]))
+    return None
 
 
 def ref_func_declarations(F, res, ews, helper):
@@ -417,39 +488,17 @@ def ref_func_declarations(F, res, ews, helper):
             if last == 'remove':
                 a = e['args'][1]
                 st = show(a)
-                def split_elem(x):
-                    """'elem(<inner>)<rest>' -> (inner, rest)"""
-                    if not x.startswith('elem('):
-                        return None
-                    d, i = 0, 4
-                    for i in range(4, len(x)):
-                        d += x[i] == '('
-                        d -= x[i] == ')'
-                        if d == 0:
-                            break
-                    return x[5:i], x[i + 1:]
+                hits = declaring(a)
                 hit = None
-                sp = split_elem(st)
-                tail = ''
-                if sp and sp[0].startswith('elem('):
-                    tail = sp[1]
-                    sp = split_elem(sp[0])
-                if sp:
-                    m = re.match(r'^iter\(module\.(\w+)', sp[0])
-                    if m and sp[1].startswith('.1'):
-                        arena, path = m.group(1), sp[1][2:]
-                        for ar, rx in DECLARING:
-                            if ar == arena and re.match(rx, path) and tail in ('', '.RefFunc.0'):
-                                if path.endswith('Expressions.1') == (tail == '.RefFunc.0') and \
-                                        ((arena == 'elements') == st.startswith('elem(elem(')):
-                                    hit = (ar, path)
+                if hits:
+                    seen_decl |= hits
+                    hit = True
                 if hit is None:
                     bad = 'a function is treated as declared because of %s, which is not a declaring occurrence' % st[:90]
-                else:
-                    seen_decl.add(hit)
     # the visitor hook
-    hook = [q for q in F.hir if q.startswith('<' + helper + '::') and q.endswith('::visit_ref_func')] + \
-           [q for q in F.hir if helper.rsplit('::', 1)[0] in q and 'Visitor' in q and helper.split('::')[-1] in q and q.endswith('::visit_ref_func')]
+    from heval import file_of
+    hook = [q for q in F.hir if re.match(r'^<[\w:]+(<.*?>)? as ir::Visitor', q) and q.endswith('::visit_ref_func')
+            and file_of(F, q) == file_of(F, helper)]
     for q in hook[:1]:
         try:
             kw = Evaluator(F, Policy(effects=[r'HashSet::insert$'], inline=lambda x: True)).run_fn(q, [sym('self'), sym('instr')])
